@@ -122,7 +122,7 @@ class C19(Property):
         quick = ctx.tier == "quick" and ctx.mode != "search"
         cases = gen_cases(ctx.rng, quick)
         results = {}
-        for case, status, r in pmap(recov.run_case, cases, timeout=900, workers=6):
+        for case, status, r in recov.run_cases(cases, timeout=300, workers=6):
             results[case["name"]] = (case, status, r)
         lines, meta = [], []
         for name, (case, status, r) in results.items():
